@@ -125,7 +125,10 @@ func runClient(t *byteTable, b *clBeh, seg func(n int) []int) (o clObs) {
 		}
 	}()
 	// the request's context carries a cause of its own: Connect reports the context's error, not the cause
-	ctx, cancelCause := context.WithCancelCause(context.Background())
+	// ... and a deadline far away: that there is one changes nothing while it is not reached
+	dctx, dcancel := context.WithDeadline(context.Background(), time.Now().Add(time.Hour))
+	defer dcancel()
+	ctx, cancelCause := context.WithCancelCause(dctx)
 	cancel := func() { cancelCause(errClientCause) }
 	defer cancel()
 	var mu sync.Mutex
